@@ -75,6 +75,53 @@ def run {V} (t : Table V) : List (Op V) → Table V × List (Res V)
     let (t2, rs) := run t1 ops
     (t2, r :: rs)
 
+/-! ### Paged readers (size-independence of `read_all`)
+
+`read_all` in the code is ONE un-paged `SELECT` per form (tools/gen_sql_sites.py + Props/C09Sql.lean pin that down).
+An implementation is free to fetch the same rows in pages; the definitions below say what a keyset-paged reader
+computes on the model table, for an arbitrary page size `p` and an arbitrary cursor rule, so that Props/C09.lean can
+prove that paging is invisible (for every `p ≥ 1` and every reachable table) exactly when the cursor rule is the
+correct one, and exhibit what the off-by-one rule loses. -/
+
+/-- the rows selected by the two `read_all` forms (`WHERE tag = ?` / no `WHERE`) -/
+def sel {V} (tag : Option Tag) (r : Row V) : Bool :=
+  match tag with
+  | none => true
+  | some tg => r.tag == tg
+
+/-- `ORDER BY id`: insertion sort on the row id -/
+def insertById {V} (r : Row V) : Table V → Table V
+  | [] => [r]
+  | x :: xs => if r.id ≤ x.id then r :: x :: xs else x :: insertById r xs
+
+def orderById {V} : Table V → Table V
+  | [] => []
+  | r :: rs => insertById r (orderById rs)
+
+/-- one page: `SELECT id, tag, serialization FROM cloud WHERE [tag = ? AND] id > pos ORDER BY id LIMIT p` -/
+def page {V} (t : Table V) (tag : Option Tag) (pos p : Nat) : Table V :=
+  (orderById (t.filter (fun r => sel tag r && decide (pos < r.id)))).take p
+
+/-- the paging loop: fetch a page; a short page ends the scan; after a full page the cursor becomes
+    `last id + bump`.  `bump = 0` is the correct rule for the strict comparison `id > ?`; `bump = 1` is the
+    off-by-one rule (`pos = rows[-1][0] + 1`).  `fuel` bounds the number of pages. -/
+def pagedGo {V} (t : Table V) (tag : Option Tag) (p bump : Nat) : Nat → Nat → Table V
+  | 0, _ => []
+  | fuel + 1, pos =>
+    let pg := page t tag pos p
+    if pg.length < p then pg
+    else
+      match pg.getLast? with
+      | none => pg
+      | some l => pg ++ pagedGo t tag p bump fuel (l.id + bump)
+
+/-- a paged `read_all` starting at cursor 0 (row ids start at 1) with enough fuel for one page per row -/
+def pagedRows {V} (t : Table V) (tag : Option Tag) (p bump : Nat) : Table V :=
+  pagedGo t tag p bump (t.length + 1) 0
+
+def pagedReadAll {V} (t : Table V) (tag : Option Tag) (p bump : Nat) : Res V :=
+  .rows ((pagedRows t tag p bump).map (fun r => (r.tag, r.id, r.val)))
+
 end Sqlite
 
 namespace Mock
